@@ -561,6 +561,24 @@ fn decode_same<T: SType>(input: &[u8], want: &Item) -> Result<(), String> {
     if pos != input.len() {
         return Err(format!("position {} != input length {}", pos, input.len()));
     }
+    // the same through a Deserializer that has already read a value from another buffer and is
+    // then pointed at this input (`decoder_mut`): nothing of the earlier buffer may matter
+    static EARLIER: [u8; 12] = [0x9f, 0x01, 0x02, 0xff, 0xbf, 0x61, 0x61, 0x9f, 0xff, 0xff, 0x81, 0x00];
+    let mut de = minicbor_serde::Deserializer::new(&EARLIER[..]);
+    let first = <Vec<u8> as serde::Deserialize>::deserialize(&mut de).map_err(|e| format!("reused deserializer: first value: {}", e))?;
+    if first != [1, 2] {
+        return Err(format!("reused deserializer: first value {:?}", first));
+    }
+    *de.decoder_mut() = minicbor::Decoder::new(input);
+    let v = T::deserialize(&mut de).map_err(|e| format!("reused deserializer (pointed at this input through decoder_mut): error: {}", e))?;
+    let pos = de.decoder().position();
+    let got = refser::strip(&to_item(&v).map_err(|e| e.0)?);
+    if &got != want {
+        return Err(format!("reused deserializer (pointed at this input through decoder_mut): different value: {} instead of {}", short(&refcbor::diag(&got)), short(&refcbor::diag(want))));
+    }
+    if pos != input.len() {
+        return Err(format!("reused deserializer: position {} != input length {}", pos, input.len()));
+    }
     Ok(())
 }
 
